@@ -19,8 +19,9 @@ import vlib
 import c06_abi as ABI
 import c06_gen as GEN
 import c06_shuffle as SH
+import c06_native as NAT
 
-ABI_NAMES = {"sysv64": "SysV64", "win64": "Win64", "vectorcall64": "(no Coq ABI: python oracle + clang only)", "cdecl32": "Cdecl32", "stdcall32": "Stdcall32", "fastcall32": "Fastcall32",
+ABI_NAMES = {"sysv64": "SysV64", "win64": "Win64", "vectorcall64": "Vectorcall64", "cdecl32": "Cdecl32", "stdcall32": "Stdcall32", "fastcall32": "Fastcall32",
              "aapcs64": "Aapcs64", "apple64": "Apple64"}
 
 
@@ -109,6 +110,32 @@ def explain_oob(x, y):
     return "by-reference vector argument(s) %s assigned to GP register id(s) %s (read beyond the 16-entry GP order array) instead of the stack" % (hits, [a["o1"][i - 16] for i in hits])
 
 
+def explain_home_slots(x, y):
+    """impl and model (which has the positional home slots of fixes/C06-win64-home-slots.patch) differ: is the difference exactly the
+    sequential stack layout of the unpatched positional strategy?  Same registers / kinds / indirection for every argument; only stack offsets,
+    arg_stack_size and (vectorcall) the spill zone differ, and the implementation's offsets are the sequential ones."""
+    if not (x.startswith("F ok") and y.startswith("F ok")): return None
+    a, b = ABI.parse_detail(x), ABI.parse_detail(y)
+    if a.get("st") not in (1, 2) or len(a["args"]) != len(b["args"]): return None
+    for k in a["raw"]:
+        if k not in ("args", "stack", "spill") and a["raw"][k] != b["raw"].get(k): return None
+    if a["st"] == 1 and a["spill"] != 32: return None
+    if a["st"] == 2 and a["spill"] not in (32, 48): return None
+    off = a["spill"]
+    for i, (p, q) in enumerate(zip(a["args"], b["args"])):
+        if len(p) != len(q): return None
+        for u, v in zip(p, q):
+            if (u[0], u[1], u[2], u[3], u[5]) != (v[0], v[1], v[2], v[3], v[5]): return None
+            if u[1] == 2:
+                if u[4] != off or v[4] != 8 * i: return None
+                off += 8
+            elif u[1] == 1 and u[5] == 1:
+                off += 8            # the by-reference vector in a register advances the offset (DESIGN 7.29)
+    if a["stack"] != off or b["stack"] != 8 * max(len(a["args"]), 4): return None
+    return ("C06/abi/vectorcall64/sequential-after-48" if a["st"] == 2 else "C06/abi/win64/indirect-bump",
+            "stack arguments laid out sequentially from +%d (arg_stack_size %d) instead of their home slots 8*i (%d)" % (a["spill"], a["stack"], b["stack"]))
+
+
 def part_A(ck, impl, model, rng, cov):
     cmds = ["T"] + GEN.gen_signatures(rng, ck.tier)
     corpus = os.path.join(vlib.VERIF, "corpus", "C06.txt")
@@ -155,6 +182,11 @@ def part_A(ck, impl, model, rng, cov):
             disagreements += 1
             if status in ("deviation", "violation"):
                 continue      # the oracle exhibited a failing input of the property itself (reported above)
+            hs = explain_home_slots(x, y)
+            if hs:
+                dev_hits[hs[0]] += 1
+                ck.violation(hs[0], "%s: %s  [%s]" % (hs[0], hs[1], cmd), {"command": cmd, "impl": x, "model": y})
+                continue
             oob = explain_oob(x, y)
             if oob:
                 dev_hits["C06/abi/win64/oob16"] += 1
@@ -182,7 +214,7 @@ def part_A(ck, impl, model, rng, cov):
 CTYPES = {34: "signed char", 35: "unsigned char", 36: "short", 37: "unsigned short", 38: "int", 39: "unsigned", 40: "long long", 41: "unsigned long long",
           42: "float", 43: "double"}
 TRIPLES = {"sysv64": "x86_64-linux-gnu", "win64": "x86_64-pc-windows-msvc", "cdecl32": "i386-linux-gnu", "aapcs64": "aarch64-linux-gnu",
-           "apple64": "arm64-apple-darwin"}
+           "apple64": "arm64-apple-darwin", "regparm3_32": "i386-linux-gnu", "regparm2_32": "i386-linux-gnu", "vectorcall64": "x86_64-pc-windows-msvc"}
 X64ARG = {"rdi": 7, "rsi": 6, "rdx": 2, "rcx": 1, "r8": 8, "r9": 9}
 
 
@@ -200,31 +232,41 @@ def clang_locate(abi, args, k, work):
     src += "volatile %s g;\nvoid f(%s) { g = p%d; }\n" % (tys[k], ", ".join("%s p%d" % (t, i) for i, t in enumerate(tys)), k)
     path = os.path.join(work, "clang_%s_%d.c" % (abi, k))
     open(path, "w").write(src)
-    rc, out, err = vlib.sh(["clang", "-target", TRIPLES[abi], "-O1", "-S", "-fomit-frame-pointer", "-msse2", "-o", "-", path] if abi != "aapcs64" and abi != "apple64"
-                           else ["clang", "-target", TRIPLES[abi], "-O1", "-S", "-fomit-frame-pointer", "-o", "-", path], timeout=60)
+    flags = ["-O1", "-S", "-fomit-frame-pointer", "-fno-pic"]
+    if abi not in ("aapcs64", "apple64"): flags.append("-msse2")
+    if abi.startswith("regparm"): flags.append("-mregparm=" + abi[7])
+    if abi == "vectorcall64": src = src.replace("void f(", "void __vectorcall f(")
+    open(path, "w").write(src)
+    rc, out, err = vlib.sh(["clang", "-target", TRIPLES[abi]] + flags + ["-o", "-", path], timeout=60)
     if rc != 0: return None
     body = []
     on = False
     for line in out.split("\n"):
         s = line.strip()
-        if s.startswith(("f:", "_f:", '"f":')): on = True; continue
+        if s.startswith(("f:", "_f:", '"f":', "f@@", '"f@@')): on = True; continue
         if on:
             if s.startswith((".cfi", "#", "//", ";", ".seh")) or not s: continue
             if s.startswith(("ret", ".Lfunc_end", ".size")): break
             body.append((s.split("//")[0].split(";")[0] if abi in ("aapcs64", "apple64") else s.split("#")[0]).strip())
     if not body: return None
     text = " ; ".join(body)
-    if abi in ("sysv64", "win64", "cdecl32"):
-        sp = "%esp" if abi == "cdecl32" else "%rsp"
+    if abi in ("sysv64", "win64", "vectorcall64", "cdecl32") or abi.startswith("regparm"):
+        i386 = abi == "cdecl32" or abi.startswith("regparm")
+        sp = "%esp" if i386 else "%rsp"
+        npush = 0
+        while body and body[0].startswith("push"):
+            npush += 1; body = body[1:]
+        if not body: return None
+        text = " ; ".join(body)
         m = re.search(r"(-?\d*)\(%s\)" % re.escape(sp), text)
-        ra = 4 if abi == "cdecl32" else 8
-        if m:
-            return ("s", (int(m.group(1)) if m.group(1) else 0) - ra)
+        ra = 4 if i386 else 8
+        if m and not re.match(r"\w+\s+%(e?[abcd]x|[abcd]l|e?[sd]i|r\d+\w?|[sd]il),", body[0]):
+            return ("s", (int(m.group(1)) if m.group(1) else 0) - ra - npush * ra)
         m = re.search(r"\(%(r[a-z0-9]+)\)", body[0])       # by reference: the value is loaded through an argument register
         if m and m.group(1) in X64ARG: return ("ri", 0, X64ARG[m.group(1)])
         m = re.search(r"%(xmm|ymm)(\d+)", body[0])
         if m: return ("r", 1, int(m.group(2)))
-        names = {"rdi": 7, "edi": 7, "dil": 7, "di": 7, "rsi": 6, "esi": 6, "sil": 6, "si": 6, "rdx": 2, "edx": 2, "dl": 2, "dx": 2, "rcx": 1, "ecx": 1, "cl": 1, "cx": 1,
+        names = {"rax": 0, "eax": 0, "ax": 0, "al": 0, "rdi": 7, "edi": 7, "dil": 7, "di": 7, "rsi": 6, "esi": 6, "sil": 6, "si": 6, "rdx": 2, "edx": 2, "dl": 2, "dx": 2, "rcx": 1, "ecx": 1, "cl": 1, "cx": 1,
                  "r8": 8, "r8d": 8, "r8b": 8, "r8w": 8, "r9": 9, "r9d": 9, "r9b": 9, "r9w": 9}
         m = re.match(r"\w+\s+%(\w+),", body[0])
         if m and m.group(1) in names: return ("r", 0, names[m.group(1)])
@@ -247,7 +289,7 @@ def clang_oracle(ck, cmds, ri, rng, cov):
         if not cmd.startswith("F ") or not x.startswith("F ok"): continue
         env, cc, va, ret, args, n = parse_F(cmd)
         abi = ABI.abi_of(env[0], env[1], env[2], cc)
-        if abi in TRIPLES and 1 <= n <= 14 and va == 255 and all((t in CTYPES) or 71 <= t <= 80 for t in args) and not (abi == "cdecl32" and any(t >= 71 for t in args)):
+        if abi in TRIPLES and 1 <= n <= 14 and va == 255 and all((t in CTYPES) or 71 <= t <= 80 for t in args) and not (abi.endswith("32") and any(t >= 71 for t in args)):
             cands.append((abi, cmd, x, args))
     rng.shuffle(cands)
     want = 40 if ck.tier == "quick" else 600
@@ -258,7 +300,10 @@ def clang_oracle(ck, cmds, ri, rng, cov):
 
     def one(c):
         abi, cmd, x, args = c[:4]
-        k = random.Random(cmd).randrange(len(args))
+        ks = [j for j, t in enumerate(args) if not (abi.endswith("32") and t in (40, 41))]     # 64-bit values on 32-bit targets: two stores in either order
+        if not ks:
+            return c[:4], 0, None
+        k = random.Random(cmd).choice(ks)
         d = os.path.join(ck.work, "clang", "%d" % c[4])
         os.makedirs(d, exist_ok=True)
         return c[:4], k, clang_locate(abi, args, k, d)
@@ -271,7 +316,7 @@ def clang_oracle(ck, cmds, ri, rng, cov):
             stats["unparsed"] += 1; continue
         spec = ABI.expect(abi, False, 0, args)[0][k]
         v = spec[0]
-        if abi == "cdecl32" and len(spec) == 2: v = spec[0]
+        if abi.endswith("32") and len(spec) == 2: v = spec[0]
         spec_loc = ("s", v[3]) if v[0] == 2 else (("ri", 0, v[2]) if v[4] else ("r", SH.rt_group(v[1]), v[2]))
         if v[0] == 2 and v[4]: spec_loc = ("si", v[3])
         impl = ABI.parse_detail(x)["args"][k][0]
@@ -354,7 +399,8 @@ def part_B(ck, impl, model, rng, cov, regtypeid):
             ck.violation(key, "the Builder accepts the assignment but the Assembler refuses `%s` (%s): emit_args_assignment fails at assembly time  [%s]" % (bad, S.get("asm"), c),
                          {"command": c, "impl": S["raw"][:600]})
             continue
-        nm, dm = [x.split()[0] for x in S["nodes"]], [m for m, _ in S["insts"]]
+        alias = {"stur": "str", "ldur": "ldr"}          # unscaled forms of the same store / load (llvm-mc prints them for unaligned offsets)
+        nm, dm = [x.split()[0] for x in S["nodes"]], [alias.get(m, m) for m, _ in S["insts"]]
         if nm != dm and len(nm) == len(dm):
             # the Assembler encoded a different instruction than the one the Builder recorded (llvm-mc is the judge of what the bytes mean)
             idx = [k for k, (x, y) in enumerate(zip(nm, dm)) if x != y][0]
@@ -502,7 +548,57 @@ def part_B(ck, impl, model, rng, cov, regtypeid):
     cov.update({"B_assignments": len(cmds), "B_status": dict(st), "B_by_arch (0 x86, 1 x86-64, 2 aarch64)": dict(by_arch), "B_refused": dict(refused), "B_known_finding_hits": dict(known),
                 "B_instructions": sum(len(S["insts"]) for S in Ss),
                 "B_mnemonics": dict(collections.Counter(m for S in Ss for m, _ in S["insts"]).most_common(30))})
+    part_B_native(ck, impl, cmds, Ss, info, verdict, rng, cov)
     return cmds, nontrivial, samples, st
+
+
+def part_B_native(ck, impl, cmds, Ss, info, verdict, rng, cov):
+    """execute the emitted x86-64 shuffles on the host CPU (harness command X) from random register / frame images: the CPU's final state must
+    equal the python simulator's prediction (validates the simulator and the whitelist semantics against the real machine), and destinations the
+    verified validator accepted must hold the required values natively"""
+    idx = [i for i, S in enumerate(Ss) if S.get("arch") == 1 and S["status"] == "ok" and S.get("asm") == "ok" and S["insts"] and NAT.eligible(S, info[i])]
+    limit = 1500 if ck.tier == "quick" else 40000
+    if len(idx) > limit:
+        idx = sorted(rng.sample(idx, limit))
+    blobs = {i: NAT.make_blob(rng) for i in idx}
+    xcmds = ["X" + cmds[i][1:] + " H" + blobs[i].hex() for i in idx]
+    st = collections.Counter()
+    try:
+        rx = run_lines(impl, xcmds, shards=8)
+    except RuntimeError as e:
+        ck.violation("C06/native/harness-crash", "native execution crashed: %s" % e, {"broken": "harness (native runner)"}, no_input=True)
+        cov["B_native"] = {"crashed": 1}
+        return
+    for i, line in zip(idx, rx):
+        d = kv(line.split(" insts=")[0])
+        nat = d.get("native")
+        if not nat or len(nat) != 2 * NAT.BLOB:
+            st["unavailable"] += 1; continue
+        out = bytes.fromhex(nat)
+        S = Ss[i]; mvs = info[i]
+        try:
+            pred = NAT.simulate_from(S, mvs, blobs[i])
+        except SH.SimError:
+            st["simulator_unmodelled"] += 1; continue
+        st["executed"] += 1
+        if pred != out:
+            diff = [k for k in range(NAT.BLOB) if pred[k] != out[k]][:6]
+            st["cpu_vs_simulator_differs"] += 1
+            ck.violation("C06/native/simulator-differs/" + cmds[i].replace(" ", "_")[:70], "the host CPU and the python simulator disagree at image bytes %s after the emitted code of [%s]" % (diff, cmds[i]),
+                         {"command": cmds[i], "impl": S["raw"][:600], "broken": "instruction semantics of tools/c06_shuffle.py (simulator) vs the x86-64 host"}, no_input=True)
+            continue
+        bad = NAT.wrong_moves(S, mvs, blobs[i], out)
+        v = verdict.get(i)
+        if bad:
+            st["native_wrong_value"] += 1
+            if v is not None and v.startswith("V 1"):
+                mv, got, want = bad[0]
+                ck.violation("C06/native/validated-but-wrong/" + cmds[i].replace(" ", "_")[:70], "accepted by the verified validator, but on the host CPU argument %d arrives as %#x instead of %#x  [%s]" %
+                             (mv["arg"], got, want, cmds[i]), {"command": cmds[i], "impl": S["raw"][:600], "model": v})
+        else:
+            st["native_all_destinations_right"] += 1
+            if v is not None and v.startswith("V 1"): st["validated_and_natively_right"] += 1
+    cov["B_native"] = dict(st)
 
 
 def cap_violations(ck, per_class=12):
@@ -547,8 +643,23 @@ def run(ck):
             else:
                 S = SH.parse_S(x)
                 if S["status"] == "ok":
-                    S["insts"] = SH.disassemble([S["bytes"]], 1)[0]
+                    arch = int(c.split()[1])
+                    S["arch"] = arch
+                    S["insts"] = SH.disassemble([S["bytes"]], arch)[0]
                     print(" disassembly:", S["insts"])
+                    env, cc, args, opts, dsts = parse_S_cmd(c)
+                    ti = kv(vlib.sh([impl], inp="T\n")[1])
+                    mvs = SH.moves_of(dsts, S["detail"], [int(t) for t in ti["regtypeid"].split(",")])
+                    try:
+                        print(" simulator (wrong destinations, clobbered, bytes beyond slots, faults):", SH.simulate(S, mvs, random.Random(1)))
+                    except SH.SimError as e:
+                        print(" simulator: unmodelled", e)
+                    if NAT.eligible(S, mvs):
+                        blob = NAT.make_blob(random.Random(2))
+                        d = kv(vlib.sh([impl], inp="X" + c[1:] + " H" + blob.hex() + "\n")[1].split(" insts=")[0])
+                        if len(d.get("native", "")) == 2 * NAT.BLOB:
+                            out = bytes.fromhex(d["native"])
+                            print(" host CPU: wrong destinations:", [(m["arg"], hex(g), hex(w)) for m, g, w in NAT.wrong_moves(S, mvs, blob, out)] or "none")
         return 0
 
     cov = {}
